@@ -543,51 +543,7 @@ func ruleMarkerPathSelection(w *core.World, r *core.Report) {
 		}
 		for _, site := range callSitesOf(w, tf) {
 			n++
-			anchor := site
-			g := site.Parent()
-			verdict := ""
-			for {
-				all, paths := true, 0
-				okEnum := core.EnumPathsN(g.Blocks[0], 0, 200000, 1, func(p *core.Path) {
-					on := false
-					for _, in := range p.Instrs {
-						if in == anchor {
-							on = true
-						}
-					}
-					if !on {
-						return
-					}
-					paths++
-					if !pathAssumed(p, isEnabled, false) {
-						all = false
-					}
-				})
-				if !okEnum {
-					verdict = "undecided"
-					break
-				}
-				if all && paths > 0 {
-					verdict = "ok"
-					break
-				}
-				// a closure: judged where it is created
-				if g.Parent() == nil {
-					verdict = "bad"
-					break
-				}
-				var mk ssa.Instruction
-				for _, in := range core.OwnInstrs(g.Parent()) {
-					if mc, ok := in.(*ssa.MakeClosure); ok && mc.Fn == ssa.Value(g) {
-						mk = in
-					}
-				}
-				if mk == nil {
-					verdict = "bad"
-					break
-				}
-				anchor, g = mk, g.Parent()
-			}
+			verdict := markerPathGuarded(w, site, site.Parent(), isEnabled, 4)
 			name := shortName(core.FuncName(site.Parent()))
 			if site.Parent().Parent() != nil {
 				name = shortName(core.FuncName(outermost(site.Parent()))) + "$closure"
@@ -604,6 +560,67 @@ func ruleMarkerPathSelection(w *core.World, r *core.Report) {
 	if n == 0 {
 		r.Fail("marker-path-selection", token.NoPos, "no start of an unmarked replay path found")
 	}
+}
+
+// markerPathGuarded: every path of g through anchor established that bidirectional sync is off; a
+// closure is judged where it is created, a helper of the package (a function the pinned tree does not
+// have) at every place that calls it or takes it as a method value.
+func markerPathGuarded(w *core.World, anchor ssa.Instruction, g *ssa.Function, isEnabled func(ssa.Value) bool, depth int) string {
+	all, paths := true, 0
+	okEnum := core.EnumPathsN(g.Blocks[0], 0, 200000, 1, func(p *core.Path) {
+		on := false
+		for _, in := range p.Instrs {
+			if in == anchor {
+				on = true
+			}
+		}
+		if !on {
+			return
+		}
+		paths++
+		if !pathAssumed(p, isEnabled, false) {
+			all = false
+		}
+	})
+	if !okEnum {
+		return "undecided"
+	}
+	if all && paths > 0 {
+		return "ok"
+	}
+	if depth == 0 {
+		return "bad"
+	}
+	var uses []ssa.Instruction
+	if g.Parent() != nil {
+		for _, in := range core.OwnInstrs(g.Parent()) {
+			if mc, ok := in.(*ssa.MakeClosure); ok && mc.Fn == ssa.Value(g) {
+				uses = append(uses, in)
+			}
+		}
+	} else if core.Transparent != nil && core.Transparent(g) {
+		uses = append(uses, callSitesOf(w, g)...)
+		for _, h := range w.Funcs() {
+			for _, d := range core.DeepFuncs(h) {
+				for _, in := range core.OwnInstrs(d) {
+					if mc, ok := in.(*ssa.MakeClosure); ok {
+						if wr, isF := mc.Fn.(*ssa.Function); isF && wr.Synthetic != "" && wr.Object() != nil && wr.Object() == g.Object() {
+							uses = append(uses, in)
+						}
+					}
+				}
+			}
+		}
+	}
+	if len(uses) == 0 {
+		return "bad"
+	}
+	for _, u := range uses {
+		if v := markerPathGuarded(w, u, u.Parent(), isEnabled, depth-1); v != "ok" {
+			return v
+		}
+	}
+	return "ok"
 }
 
 func outermost(f *ssa.Function) *ssa.Function {
